@@ -207,7 +207,11 @@ func supervise(args []string) int {
 		return 2
 	}
 	if err := LoadKnown(); err != nil {
-		fmt.Fprintln(os.Stderr, "HARNESS-ERROR:", err)
+		fmt.Println("HARNESS-ERROR:", err)
+		return 2
+	}
+	if err := validateKnown(id); err != nil {
+		fmt.Println("HARNESS-ERROR:", err)
 		return 2
 	}
 	n := *nw
@@ -216,6 +220,11 @@ func supervise(args []string) int {
 	}
 	if n == 0 {
 		n = runtime.NumCPU()
+	}
+	if w := os.Getenv("MC_WORKERS"); w != "" {
+		if v, err := strconv.Atoi(w); err == nil && v > 0 {
+			n = v
+		}
 	}
 	budget := c.QuickBudget
 	if *tier == "thorough" {
